@@ -1710,7 +1710,11 @@ class LeCreditBasedChannel(utils.EventEmitter):
         self.send_control_frame(request)
 
         # Wait for the connection to succeed or fail
-        return await connection_result
+        try:
+            return await connection_result
+        finally:
+            # Whatever the outcome (including cancellation), the request is over
+            self.manager.le_coc_requests.pop(request_key, None)
 
     async def disconnect(self) -> None:
         # Check that we're connected
@@ -2967,7 +2971,8 @@ class ChannelManager:
         # Connect
         try:
             await channel.connect()
-        except Exception:
+        except BaseException:
+            # Also on cancellation (e.g. a timeout set by the caller)
             logger.exception('connection failed')
             del connection_channels[source_cid]
             raise
@@ -3075,10 +3080,12 @@ class ChannelManager:
         # Connect
         try:
             await connection_result
-        except Exception:
+        except BaseException:
+            # Also on cancellation (e.g. a timeout set by the caller)
             logger.exception('connection failed')
             for cid in source_cids:
                 del connection_channels[cid]
+            pending_connections.pop(identifier, None)
             raise
 
         # Remember the channel by source CID and destination CID
